@@ -109,10 +109,17 @@ def isolated(fn, *args, timeout=300):
             try:
                 data = pickle.dumps(("ok", fn(*args)))
             except BaseException:
+                sys.setrecursionlimit(max(sys.getrecursionlimit(), 3000))
                 data = pickle.dumps(("err", traceback.format_exc()[-3000:]))
                 code = 3
             with os.fdopen(w, "wb") as f:
                 f.write(data)
+        except BaseException as e:  # never leave silently
+            try:
+                os.write(2, ("isolated child failed outside the run: %r\n" % (e,)).encode())
+            except BaseException:
+                pass
+            code = 4
         finally:
             os._exit(code)
     os.close(w)
